@@ -1,6 +1,7 @@
 import Litep2pVerif.Proofs.Service.Conns
 import Litep2pVerif.Proofs.Node.Wiring
 import Litep2pVerif.Proofs.Conn.Outbound
+import Litep2pVerif.Proofs.Conn.Wait
 /-!
 # C08 — Protocols see a well-formed per-peer connection and substream event stream
 
@@ -301,6 +302,67 @@ example :
   subst this
   exact absurd hlt (by decide)
 
+/-- **The report of a negotiated substream is queued before anything else the connection task does — hence before the
+close report** (f-round, seeded C08-f1; loop model `Model/Conn/Permits.lean` / `Model/Conn/Close.lean`, tied to the real
+`TcpConnection::start` + `ProtocolSet::report_substream_open` by the `tcploop` area, family `order`). `ProtocolSet::
+report_substream_open` delivers the event by `tx.send(event).await`: a send that SUSPENDS the loop while the protocol's
+channel is full — it is not handed to anybody who delivers it later. For every state of a connection reachable from a
+fresh one (`PInv`) in which the loop is at its `select!`, and every negotiation `k` that ends for a LIVE protocol `p`
+(`negOk k p`; `L` = the ghost log of enqueues at that moment):
+
+1. at that moment nothing has been reported closed, to anybody (no `ConnectionClosed` of this connection is in any
+   channel, nor on its way);
+2. if `p`'s channel has room the report is enqueued at once (`LDone`: the log is `L ++ [SubstreamOpened → p]`, the loop
+   is back at its `select!`);
+3. if it is full the loop waits in exactly that send (`LWait`: continuation `substreamReport`, call
+   `protoSends (substream p) [p]`, log still `L`, `p` alive), and for EVERY schedule `ls` of everything that can happen
+   afterwards — the remote closing, `ForceClose` and other commands arriving, every handle released, timers firing,
+   other protocols reading, filling, shutting down — either the loop is still waiting with NOTHING enqueued since, or
+   there is a first transition that changed anything about the loop, and it enqueued exactly the report of the
+   substream to `p` (the loop being back at its `select!` only then) — or it was `p` itself shutting down
+   (`dropRx p`: nobody left to tell). So whatever is enqueued to `p` after the end of the negotiation — in particular
+   the close report of ANY exit path — comes after the substream event in `p`'s FIFO channel;
+4. while it waits no event of the connection is processed at all: every transition that is not a move of the other end
+   of a channel (`TLabel.isChan`) leaves the loop unchanged. -/
+theorem substream_reported_before_close (s : Conn.TLoop) (hinv : Conn.PInv s.loop) (hr : s.running = true)
+    (k p : Nat) (x : Conn.Sub) (hk : s.subs[k]? = some x) (hx : x.stage = .negotiating)
+    (hp : Conn.protoAlive s p = true) :
+    let s1 := Conn.tstep s (.negOk k p)
+    let L := s.loop.ps.log
+    ((∀ j, Conn.cnt s.loop.ps j .closed = 0) ∧ Conn.mgrCnt s.loop.ps = 0) ∧
+    (Conn.hasRoom s p → Conn.LDone p L s1.loop) ∧
+    (¬ Conn.hasRoom s p → Conn.LWait p L s1.loop ∧ ∀ ls,
+      Conn.LWait p L (Conn.trun s1 ls).loop ∨
+      ∃ pre l post, ls = pre ++ l :: post ∧ Conn.LWait p L (Conn.trun s1 pre).loop ∧
+        (Conn.LDone p L (Conn.trun s1 (pre ++ [l])).loop ∨ l = .dropRx p)) ∧
+    (∀ t : Conn.TLoop, Conn.LWait p L t.loop → ∀ l, l.isChan = false → (Conn.tstep t l).loop = t.loop) := by
+  intro s1 L
+  refine ⟨Conn.running_none_closed s hinv hr, fun hroom => Conn.negOk_done s hr k p x hk hx hp hroom,
+    fun hn => ?_, fun t ht l hl => ?_⟩
+  · have hw := Conn.negOk_waits s hr k p x hk hx hp hn
+    exact ⟨hw, fun ls => Conn.trun_wait ls s1 p L hw⟩
+  · apply Conn.tstep_suspended t l _ hl
+    unfold Conn.TLoop.running; rw [ht.1]; simp
+
+/-- Non-vacuity (the C08-f1 shape): two protocols take the connection, the remote opens a substream, protocol 0 becomes
+busy (its channel of capacity 1 is full of somebody else's message); the negotiation ends for protocol 0 — the
+hypotheses hold, the channel has no room: the loop waits. Protocol 1 force-closes, the remote goes away, the idle exit is
+tried: the loop has not moved, the command is still queued. Protocol 0 takes the filler: the substream event is enqueued,
+the loop runs again, takes the `ForceClose` and reports: protocol 0 sees the substream BEFORE the close report. -/
+example :
+    let s := Conn.trun (Conn.tinit [true, true] 1) [.recv 0, .recv 1, .accept, .fill 0]
+    let s1 := Conn.tstep s (.negOk 0 0)
+    let s2 := Conn.trun s1 [.forceClose 1, .takeCmd, .yamuxEof, .idleExit]
+    let s3 := Conn.trun s2 [.recv 0]
+    let s4 := Conn.trun s3 [.takeCmd, .recv 0, .recv 0]
+    Conn.PInv s.loop ∧
+    s.running = true ∧ Conn.protoAlive s 0 = true ∧ s.subs[0]? = some ⟨true, none, .negotiating⟩ ∧
+    s1.loop.cont = some .substreamReport ∧ s2.loop = s1.loop ∧ s2.cmdQ = [.forceClose] ∧
+    s3.loop.ps.log = [.proto 0 .substreamOpened] ∧ s3.running = true ∧
+    s4.loop.exited = some .ok ∧
+    s4.loop.ps.log = [.proto 0 .substreamOpened, .proto 1 .closed, .proto 0 .closed, .mgr] :=
+  ⟨Conn.trun_pinv _ _ ((Conn.tinit_fresh _ _).pinv rfl rfl), by decide⟩
+
 /-- **Ids are fresh.** For EVERY history the ids returned by accepted `open_substream` calls are
 strictly increasing — never reused, also across failed sends and allocations by other users of the
 shared counter. -/
@@ -362,3 +424,4 @@ end Litep2pVerif.Props.C08.Wiring
 
 #print axioms Litep2pVerif.Props.C08.Wiring.identify_told_every_registered_protocol
 #print axioms Litep2pVerif.Props.C08.outbound_open_answered_by_loop
+#print axioms Litep2pVerif.Props.C08.substream_reported_before_close
